@@ -243,7 +243,8 @@ mod kani_tcp {
         let so = sdiff(q, repr.seq_number);
         if so >= 0 && (so as usize) < plen { kani::assume(pay[so as usize] == b); } // tag: ghost
         let seg_end = sadd(repr.seq_number, plen as i64);
-        kani::assume(sdiff(peer_end, seg_end) >= 0); // tag: ghost
+        // (data bytes lie before the FIN; an empty segment may well sit after it: the peer's ACKs following its FIN have seq = FIN + 1)
+        if plen > 0 { kani::assume(sdiff(peer_end, seg_end) >= 0); } // tag: ghost
         if repr.control == TcpControl::Fin { kani::assume(seg_end == peer_end); } // tag: ghost
         let ip = ip_for(&repr);
         kani::assume(part_of(&repr, plen, repr.seq_number == rcv_nxt(&s)) == part); // tag: case-split
